@@ -715,3 +715,60 @@ def declare(spec):
             ("C14:bookkeeping-exists", "has(self, 'possible_next_events')"),
         ],
         props=["C02", "C07", "C12", "C13", "C14"])
+
+    # ---- placeholders (ASSUMED, not verified yet): the three remaining event handlers ------------------------------
+    for h in ["change_shift", "slotted_service", "change_customer_class_while_waiting"]:
+        add(spec, "Node." + h, modifies=["*"], allocates="any", assumed=True, raises=[("ValueError", "True")],
+            note="event handler not under contract yet: may change anything its call graph can write")
+
+    # ---- end-of-run statistics (C04 utilisation, C14, C20) ----------------------------------------------------------
+    add(spec, "Node.wrap_up_servers",
+        types={"current_time": "time"},
+        requires=[INV("has_servers(self)"), "is_fin(current_time)", INV("implies(not isinf(self.c), nodup(self.servers))"),
+                  INV("forall_in(self.servers, lambda s: is_fin(s.start_date) and is_fin(s.busy_time) and "
+                      "implies(s.busy, is_obj(s.cust, 'Individual') and (as_obj(s.cust, 'Individual').service_start_date is False "
+                      "or is_fin(as_obj(s.cust, 'Individual').service_start_date))))")],
+        modifies=["total_time@S(self.servers)", "busy_time@S(self.servers)"],
+        ensures=[
+            ("C04:total-time-is-the-time-since-the-server-started",
+             "implies(not isinf(self.c), forall_in(self.servers, lambda s: s.total_time == current_time - s.start_date))"),
+            ("C04:a-busy-servers-current-service-is-counted-up-to-the-stop",
+             "implies(not isinf(self.c), forall_in(self.servers, lambda s: implies(s.busy and not (as_obj(s.cust, 'Individual').service_start_date is False), "
+             "s.busy_time == old(s.busy_time) + (current_time - as_obj(s.cust, 'Individual').service_start_date)) "
+             "and implies(not s.busy, s.busy_time == old(s.busy_time))))"),
+        ],
+        loop_invariants={0: [
+            "forall_int(lambda j: implies(0 <= j and j < _i, _it[j].total_time == current_time - _it[j].start_date "
+            "and implies(_it[j].busy and not (as_obj(_it[j].cust, 'Individual').service_start_date is False), "
+            "_it[j].busy_time == old(_it[j].busy_time) + (current_time - as_obj(_it[j].cust, 'Individual').service_start_date)) "
+            "and implies(not _it[j].busy, _it[j].busy_time == old(_it[j].busy_time))), trigger=lambda j: _it[j])",
+            "forall_int(lambda j: implies(_i <= j and j < len(_it), _it[j].busy_time == old(_it[j].busy_time)), trigger=lambda j: _it[j])",
+            "forall_in(_it, lambda s: is_fin(s.busy_time))",
+            "nodup(_it)",
+        ]},
+        props=["C04", "C14", "C16", "C20"])
+
+    add(spec, "Node.find_server_utilisation",
+        requires=[INV("has_servers(self)"),
+                  INV("forall_in(self.servers, lambda s: is_time(s.total_time) and is_fin(s.total_time) and is_fin(s.busy_time) "
+                      "and 0 <= s.busy_time and s.busy_time <= s.total_time)"),
+                  INV("forall_in(self.all_servers_total, lambda x: is_fin(x) and x >= 0) and forall_in(self.all_servers_busy, lambda x: is_fin(x) and x >= 0)"),
+                  INV("sum_r(self.all_servers_busy) <= sum_r(self.all_servers_total) and 0 <= sum_r(self.all_servers_busy)")],
+        modifies=["server_utilisation@self", "$seq@self.all_servers_total", "$seq@self.all_servers_busy"], allocates=True,
+        ensures=[
+            ("C04:no-servers-no-utilisation", "implies(isinf(self.c) or self.c == 0, self.server_utilisation is None)"),
+            ("C14:attribute-exists", "has(self, 'server_utilisation')"),
+            ("C04:utilisation-is-busy-time-over-total-time-and-lies-in-0-1",
+             "implies(self.server_utilisation is not None, sum_r(self.all_servers_total) > 0 "
+             "and real(self.server_utilisation) * sum_r(self.all_servers_total) == sum_r(self.all_servers_busy) "
+             "and 0 <= self.server_utilisation and self.server_utilisation <= 1)"),
+            ("C04:every-servers-times-are-added-once",
+             "implies(not isinf(self.c) and not (self.c == 0), len(self.all_servers_total) == old(len(self.all_servers_total)) + len(self.servers) "
+             "and len(self.all_servers_busy) == old(len(self.all_servers_busy)) + len(self.servers))"),
+        ],
+        loop_invariants={0: [
+            "forall_in(self.all_servers_total, lambda x: is_fin(x))", "forall_in(self.all_servers_busy, lambda x: is_fin(x))",
+            "sum_r(self.all_servers_busy) <= sum_r(self.all_servers_total) and 0 <= sum_r(self.all_servers_busy)",
+            "len(self.all_servers_total) == old(len(self.all_servers_total)) + _i and len(self.all_servers_busy) == old(len(self.all_servers_busy)) + _i",
+        ]},
+        props=["C04", "C14"])
